@@ -4,6 +4,7 @@
 #include <signal.h>
 #include <sys/mman.h>
 #include <unistd.h>
+#include <valgrind/valgrind.h>
 
 ctx_t G;
 int g_dispatch_native = 1;
@@ -221,6 +222,7 @@ int case_begin(const char* key, const char* fmt, ...) {
   cur_viols = 0;
   in_case = 1;
   if (status_map) snprintf(status_map, 2048, "%" PRId64 "\t%s\t%s\n", cur_idx, cur_key, cur_desc);
+  if (G.valgrind) VALGRIND_PRINTF("VPCASE\t%" PRId64 "\t%s\t%s\n", cur_idx, cur_key, cur_desc);
   return 1;
 }
 
